@@ -62,6 +62,8 @@ FAMILIES = {
         # the loss follows a REQUEST / a terminal frame in the same read (handler just invoked, tasks created but not yet run)
         {'family': 'cut', 'knobs': {'p_request_race': 0.6, 'p_terminal_race': 1.0, 'faults': ['eof', 'eof', 'error']}, 'quick': 300,
          'thorough': 4000, 'first': 200000},
+        # ... and with the interactions driven through the Rx / ReactiveX front ends
+        {'family': 'adapters_cut', 'knobs': {}, 'quick': 250, 'thorough': 4000, 'first': 400000},
     ],
     'C12': [
         {'family': 'hostile', 'knobs': {}, 'quick': 500, 'thorough': 8000},
@@ -85,6 +87,7 @@ FAMILIES = {
         {'family': 'adapters', 'knobs': {'version': 'reactivex'}, 'quick': 300, 'thorough': 5000},
         {'family': 'adapters', 'knobs': {'version': 'rx'}, 'quick': 300, 'thorough': 5000, 'first': 100000},
         {'family': 'adapters_mixed', 'knobs': {}, 'quick': 300, 'thorough': 5000, 'first': 200000},
+        {'family': 'adapters_cut', 'knobs': {}, 'quick': 200, 'thorough': 3000, 'first': 400000},
     ],
     'C10': [
         {'family': 'tlc', 'knobs': {}, 'quick': 320, 'thorough': 3200, 'first': 500000},
